@@ -18,6 +18,8 @@ KM_full == << << >>,
               <<A(<<"*", "1,0", "?">>, 0), A(<<"h", "*", "a", "b">>, 0)>>,
               <<R(<<"*", "*">>, 0), R(<<"a">>, 0), R(<<"\\a">>, 0)>>,
               <<A(<<"*", "1", "*">>, 0), A(<<"*", "*", "a">>, 0)>>,
+              <<R(<<"a,c">>, 0), R(<<"b,c">>, 0)>>,
+              <<A(<<"*", "2,1">>, 0), A(<<"h", "1,0">>, 0)>>,
               <<A(<<"*", "1">>, 0), R(<<"a">>, 0)>> >>
 KM_noF25 == SubSeq(KM_full, 1, Len(KM_full) - 1)
 KM_fifo  == << << >>, <<R(<<"a">>, 0)>>, <<A(<<"*", "1">>, 0)>> >>
